@@ -117,7 +117,7 @@ for d in sorted(glob.glob("/verif/seeded/*/")):
         caught = [p for p, rc in m if rc == "1"]
         if caught:
             st["caught_by"] = ", ".join(caught) + " (after strengthening)"
-    elif sid in AUTHOR_CONFIRMED:
+    if sid in AUTHOR_CONFIRMED and st["caught_by"].startswith("—"):
         how = "tools/mutant_run.sh run by the check's author, rc=1"
         st["caught_by"] = AUTHOR_CONFIRMED[sid] + f" (after strengthening; {how} — not re-run centrally)"
     if sid in INITIALLY_MISSED:
